@@ -316,6 +316,11 @@ def run_driver(ctx, scenarios, race=False, par=6, timeout=120):
         except subprocess.TimeoutExpired:
             raise vlib.MachineryError("conn driver timed out on scenario %s" % sc["id"])
         lines = r.stdout.strip().splitlines()
+        if not lines and ("panic:" in r.stderr or "fatal error:" in r.stderr) and "github.com/DrmagicE/gmqtt/" in r.stderr \
+                and "main." not in r.stderr.split("goroutine ", 2)[1 if "goroutine " in r.stderr else 0][:3000]:
+            # a panic (or a fatal runtime error such as a concurrent map write) in a goroutine of the broker killed the process
+            return sc["id"], {"id": sc["id"], "divs": [], "trace": [], "stats": {}, "panic": r.stderr[-6000:], "races": race_reports(r.stderr) if race else [],
+                              "rc": r.returncode, "wall_s": round(time.time() - t0, 2)}
         if not lines:
             raise vlib.MachineryError("conn driver produced nothing for %s (rc=%s): %s" % (sc["id"], r.returncode, r.stderr[-3000:]))
         try:
@@ -327,8 +332,6 @@ def run_driver(ctx, scenarios, race=False, par=6, timeout=120):
         res["wall_s"] = round(time.time() - t0, 2)
         res["rc"] = r.returncode
         res["races"] = race_reports(r.stderr) if race else []
-        if "panic:" in r.stderr and "goroutine " in r.stderr and r.returncode == 2:
-            res["panic"] = r.stderr[-4000:]
         return sc["id"], res
 
     with ThreadPoolExecutor(max_workers=par) as ex:
